@@ -86,6 +86,7 @@ type Sock struct {
 	rdl    time.Time
 	dlCh   chan struct{}
 	werr   error
+	cerr   error
 }
 
 // Listen creates a socket bound to addr.
@@ -168,6 +169,13 @@ func (n *Net) SentSnapshot() []Datagram {
 	n.mu.Lock()
 	defer n.mu.Unlock()
 	return append([]Datagram(nil), n.Sent...)
+}
+
+// DeliveredSnapshot returns a copy of the log of datagrams that reached the delivery step (after filter and delay).
+func (n *Net) DeliveredSnapshot() []Datagram {
+	n.mu.Lock()
+	defer n.mu.Unlock()
+	return append([]Datagram(nil), n.Delivered...)
 }
 
 // WriteMsgUDP sends a datagram.
@@ -260,11 +268,16 @@ func (s *Sock) Write(b []byte) (int, error) {
 	return n, err
 }
 
-// Close closes the socket.
+// Close closes the socket. It returns nil unless FailClose was called.
 func (s *Sock) Close() error {
 	s.once.Do(func() { close(s.closed) })
-	return nil
+	s.mu.Lock()
+	defer s.mu.Unlock()
+	return s.cerr
 }
+
+// FailClose makes Close report err (a failing close(2)): the socket is closed all the same, every Close call returns err.
+func (s *Sock) FailClose(err error) { s.mu.Lock(); s.cerr = err; s.mu.Unlock() }
 
 // FailWrites makes later writes fail with err.
 func (s *Sock) FailWrites(err error) { s.mu.Lock(); s.werr = err; s.mu.Unlock() }
